@@ -77,7 +77,7 @@ func loadKnown(verif string) []knownFinding {
 
 // buildReplayBinary compiles the test binary for a package with harness overlay.
 func buildReplayBinary(repo string, spec LoadSpec, stubs []StubSpec, harnessNames []string, tmp string) (string, error) {
-	pkgName, err := packageNameOf(spec.Files[0])
+	pkgName, err := specPackageName(spec)
 	if err != nil {
 		return "", err
 	}
